@@ -132,7 +132,10 @@ let () = serve (fun line ->
   try
     match next () with
     | "hash" -> String.concat " " (List.map show_token (key_hash_real (parse_key ())))
-    | "eq" -> let a = parse_key () in let b = parse_key () in if key_eq a b then "1" else "0"
+    | "eq" -> let a = parse_key () in let b = parse_key () in
+        let r = key_eq a b in
+        (* Eq as written (hashed nested lookup) must agree with key_eq; a disagreement shows as "1!"/"0!" *)
+        (if r then "1" else "0") ^ (if key_eq_hm key_hash_real a b = r then "" else "!")
     | "hist" ->
         let def : z option option =
           match next () with "_" -> None | "n" -> Some None | v -> Some (Some (coqz_of_string v)) in
